@@ -1,2 +1,166 @@
-(** C11 — placeholder until the proofs land. *)
-From Snel Require Import Model.Shard Model.Compaction.
+(** C11 — published segments are immutable and appear or disappear as a whole.
+    This file contains only the property theorems, each closed by [exact],
+    with [Print Assumptions] beneath.  Models: Model/Shard.v + Model/Compaction.v
+    (validated against the engine by trace validation); proofs:
+    Proofs/ShardC11Proofs.v.
+
+    Histories are lists of [clabel] (every label of the shard model plus the four
+    compaction labels) run by [crun] from [init c].  [hist_ok s ls = true] says
+    that every step satisfies its guard [cstep_ok]:
+    - a base label is not [LCrash]/[LRestart] and leaves the level-0 allocator
+      inside level 0 ([alloc0 <= level_span]);
+    - [CWrite b]: the output id is on a level above 0 (as [batch_ok] demands) and
+      FRESH: no directory of that name exists;
+    - [CIndex b], [CLive b dr]: the output directory of [b] exists;
+    - [CReclaim dr]: the ids are not live, not listed in the index and not the
+      segment of a queued flush job.
+    [Complete s i]: a directory [i] exists and no flush job of segment [i] is
+    still before its index entry (a compaction output is written by the single
+    step [CWrite]). *)
+From Coq Require Import NArith List Bool.
+From Snel Require Import Model.Shard Proofs.ShardC03Proofs Model.Compaction Proofs.CompactionProofs Proofs.ShardC11Proofs.
+Import ListNotations.
+Open Scope N_scope.
+
+(** Once an id is live, the rows of its directory do not change as long as it
+    stays live: for every guarded history [ls1 ++ ls2] in which [i] is live at
+    every state of the [ls2] part, the directory after [ls1 ++ ls2] is the one
+    after [ls1] (equal row lists). *)
+Theorem C11_live_rows_immutable_no_crash : forall c ls1 ls2 i,
+  hist_ok (init c) (ls1 ++ ls2) = true ->
+  (forall n, In i (live (crun (init c) (ls1 ++ firstn n ls2)))) ->
+  rows_of (dirs (crun (init c) (ls1 ++ ls2))) i = rows_of (dirs (crun (init c) ls1)) i.
+Proof. exact live_rows_immutable_no_crash. Qed.
+Print Assumptions C11_live_rows_immutable_no_crash.
+
+(** The invariant [CI] holds at every state of a guarded history. *)
+Theorem C11_invariant_reachable : forall c ls,
+  hist_ok (init c) ls = true -> CI (crun (init c) ls).
+Proof. exact ci_reachable. Qed.
+Print Assumptions C11_invariant_reachable.
+
+(** What one guarded step does to an existing directory: nothing; or it removes it
+    as a whole (and it was neither live nor listed); or the flush worker appends
+    to the directory of its own unfinished job (not complete).  An existing
+    directory is never replaced. *)
+Theorem C11_dirs_step : forall s l i,
+  CI s -> cstep_ok s l = true -> has_dir (dirs s) i ->
+  let s' := cstep s l in
+  rows_of (dirs s') i = rows_of (dirs s) i /\ has_dir (dirs s') i
+  \/ (~ has_dir (dirs s') i /\ ~ In i (live s) /\ ~ In i (index_labels (index s)))
+  \/ (exists extra j rest, rows_of (dirs s') i = rows_of (dirs s) i ++ extra /\ has_dir (dirs s') i /\
+        jobs s = j :: rest /\ jseg j = i /\ jstage j = StBegun /\ ~ Complete s i).
+Proof. exact dirs_step. Qed.
+Print Assumptions C11_dirs_step.
+
+(** A directory appears only under an id that has none: as the complete output of
+    a [CWrite], or as the directory of the flush job being written (not live, not
+    listed). *)
+Theorem C11_dir_created_fresh : forall s l i,
+  CI s -> cstep_ok s l = true -> ~ has_dir (dirs s) i -> has_dir (dirs (cstep s l)) i ->
+  (exists b, l = CWrite b /\ b_out b = i /\ rows_of (dirs (cstep s l)) i = batch_rows (dirs s) b)
+  \/ (exists j rest, jobs s = j :: rest /\ jseg j = i /\ jstage j = StBegun /\ ~ In i (live s) /\
+        ~ In i (index_labels (index s))).
+Proof. exact dir_created_fresh. Qed.
+Print Assumptions C11_dir_created_fresh.
+
+(** [live] only names complete directories. *)
+Theorem C11_live_names_complete : forall c ls i,
+  hist_ok (init c) ls = true -> In i (live (crun (init c) ls)) -> Complete (crun (init c) ls) i.
+Proof. exact live_names_complete. Qed.
+Print Assumptions C11_live_names_complete.
+
+(** Every id listed in the index has a complete directory. *)
+Theorem C11_index_names_complete : forall c ls i,
+  hist_ok (init c) ls = true -> In i (index_labels (index (crun (init c) ls))) -> Complete (crun (init c) ls) i.
+Proof. exact index_names_complete. Qed.
+Print Assumptions C11_index_names_complete.
+
+(** A whole batch of the policy from a well-formed state (C05) satisfies the guards. *)
+Theorem C11_batch_guards : forall k s b,
+  WF s -> BatchPre k s b -> (forall i, In i (b_inputs b) -> ~ In i (map jseg (jobs s))) ->
+  hist_ok s (batch_labels s b) = true.
+Proof. exact batch_hist_ok. Qed.
+Print Assumptions C11_batch_guards.
+
+(** Known finding SegmentLabelReused: a guarded, crash-free history in which every
+    batch is [batch_ok] publishes the name 10000 twice with different rows (the
+    allocator [next_out] is seeded from the index labels, 10000 was retired into
+    20000 and its directory reclaimed). *)
+Theorem C11_label_reuse_refuted :
+  exists c k l1 l2 l3 b i,
+    let s1 := crun (init c) l1 in
+    let s2 := crun (init c) (l1 ++ l2) in
+    let s3 := crun (init c) (l1 ++ l2 ++ l3) in
+    hist_ok (init c) (l1 ++ l2 ++ l3) = true /\ policy_ok k (init c) (l1 ++ l2 ++ l3) = true /\
+    In (CWrite b) l3 /\ b_out b = i /\ batch_ok (index (crun (init c) (l1 ++ l2 ++ seg1 4 ++ seg1 5))) k b = true /\
+    In i (live s1) /\ In i (index_labels (index s1)) /\ rows_of (dirs s1) i = [mkEv 0 0 0; mkEv 1 0 0] /\
+    ~ In i (live s2) /\ ~ In i (index_labels (index s2)) /\ ~ has_dir (dirs s2) i /\
+    index s2 = [(20000, [0])] /\
+    In i (live s3) /\ In i (index_labels (index s3)) /\ rows_of (dirs s3) i = [mkEv 4 0 0; mkEv 5 0 0].
+Proof. exact label_reuse_refuted. Qed.
+Print Assumptions C11_label_reuse_refuted.
+
+(** Known finding CrashLeftoverDirectoryBecomesLive: crash after [FwMkdir] (a) or
+    after the files of one of two types were written (b), restart: the incomplete
+    directory is live and not listed in the index. *)
+Theorem C11_crash_leftover_refuted :
+  (exists c pre, let s0 := crun (init c) pre in
+     let s := crun (init c) (pre ++ [CBase LCrash; CBase LRestart]) in
+     hist_ok (init c) pre = true /\ ~ In 0 (live s0) /\ ~ Complete s0 0 /\
+     jobs s0 = [mkJob 0 [mkEv 0 0 0] StBegun] /\
+     In 0 (live s) /\ index s = [] /\ dirs s = [mkSeg 0 []]) /\
+  (exists c pre, let s0 := crun (init c) pre in
+     let s := crun (init c) (pre ++ [CBase LCrash; CBase LRestart]) in
+     hist_ok (init c) pre = true /\ ~ In 0 (live s0) /\ ~ Complete s0 0 /\
+     jobs s0 = [mkJob 0 [mkEv 0 0 0; mkEv 1 0 1] StBegun] /\
+     In 0 (live s) /\ index s = [] /\ dirs s = [mkSeg 0 [mkEv 0 0 0]] /\
+     mem s = [mkEv 0 0 0; mkEv 1 0 1]).
+Proof. exact crash_leftover_refuted. Qed.
+Print Assumptions C11_crash_leftover_refuted.
+
+(** Known finding L0IdReusedAfterCompactionAndRestart: after compaction has merged
+    the level-0 segments away, crash + restart seeds the level-0 allocator from the
+    remaining directory names and the name 0 is published again with other rows. *)
+Theorem C11_l0_reuse_after_restart_refuted :
+  exists c k l1 l2 l3 i,
+    let s1 := crun (init c) l1 in
+    let s2 := crun (init c) (l1 ++ l2) in
+    let s3 := crun (init c) (l1 ++ l2 ++ l3) in
+    hist_ok (init c) (l1 ++ l2) = true /\ policy_ok k (init c) (l1 ++ l2) = true /\
+    l3 = [CBase LCrash; CBase LRestart] ++ seg1 2 /\
+    hist_ok (crun (init c) (l1 ++ l2 ++ [CBase LCrash; CBase LRestart])) (seg1 2) = true /\
+    In i (live s1) /\ rows_of (dirs s1) i = [mkEv 0 0 0] /\
+    ~ In i (live s2) /\ ~ has_dir (dirs s2) i /\ alloc0 s2 = 2 /\
+    alloc0 (crun (init c) (l1 ++ l2 ++ [CBase LCrash; CBase LRestart])) = 0 /\
+    In i (live s3) /\ In i (index_labels (index s3)) /\ rows_of (dirs s3) i = [mkEv 2 0 0].
+Proof. exact l0_reuse_after_restart_refuted. Qed.
+Print Assumptions C11_l0_reuse_after_restart_refuted.
+
+(** The guard of [CReclaim] is needed in the model (interleaving of a batch with a
+    flush job between [FwIndex] and [FwPublish]; not observed on the engine). *)
+Theorem C11_reclaim_guard_needed :
+  let s := crun (init 1) race in
+  policy_ok 2 (init 1) race = true /\ hist_ok (init 1) race = false /\
+  live s = [10000; 0] /\ map sid (dirs s) = [10000].
+Proof. exact reclaim_guard_needed. Qed.
+Print Assumptions C11_reclaim_guard_needed.
+
+(** Non-vacuity. *)
+Theorem C11_live_rows_immutable_example :
+  let pre := map CBase ls_3 ++ whole b_31 [1] in
+  let post := whole b_32 [0; 2] in
+  hist_ok (init 2) (pre ++ post) = true /\ policy_ok 2 (init 2) (pre ++ post) = true /\
+  (forall n, In 10000 (live (crun (init 2) (pre ++ firstn n post)))) /\
+  live (crun (init 2) pre) = [0; 2; 10000] /\ live (crun (init 2) (pre ++ post)) = [10000; 10001] /\
+  index (crun (init 2) (pre ++ post)) = [(10000, [0]); (10001, [1])] /\
+  rows_of (dirs (crun (init 2) (pre ++ post))) 10000 = [mkEv 0 0 0; mkEv 2 0 0; mkEv 3 1 0].
+Proof. exact live_rows_immutable_example. Qed.
+Print Assumptions C11_live_rows_immutable_example.
+
+Theorem C11_guards_flush_example :
+  hist_ok (init 2) (map CBase ls_ex) = true /\
+  map jstage (jobs (crun (init 2) (map CBase ls_ex))) = [StBegun; StQueued] /\
+  live (crun (init 2) (map CBase ls_ex)) = [0].
+Proof. exact guards_flush_example. Qed.
+Print Assumptions C11_guards_flush_example.
